@@ -159,6 +159,14 @@ func (s *State) get(name string, sort Sort) Term {
 				c := s.get("G$called$"+w, SBool)
 				s.vc.assumeGlobal(mkAnd(sle(i64(0), t), sle(t, bvLit(64, 1<<40)), mkEq(c, slt(i64(0), t))))
 			}
+			if name == "G$clock" || strings.HasPrefix(name, "G$seq$") {
+				// the event clock and the time stamps taken from it never run backwards and stay far from wrap-around
+				s.writes[name] = t
+				s.vc.assumeGlobal(mkAnd(sle(s.parent.get(name, sort), t), sle(t, bvLit(64, 1<<40))))
+				if name != "G$clock" {
+					s.vc.assumeGlobal(sle(t, s.get("G$clock", SBV64)))
+				}
+			}
 		} else if (s.mods["N$"+name] || s.mods["N$*"] && isHeapName(name)) && strings.HasPrefix(string(sort), "(Array (_ BitVec 64) ") {
 			// only objects allocated since the parent state may differ
 			t = s.vc.freshAbove(name, s.parent.get(name, sort), s.parent.get("$alloc", SBV64))
